@@ -60,7 +60,9 @@ func defineIdRecursively(node *types.ObjectMap, id string) {
 	if _, isTypeNode := (*node)["@type"]; isTypeNode {
 		(*node)["@id"] = id
 		// the elements of an array are named <id>_<index>; a node with several arrays of nodes (a node of
-		// the data graph quoted in a trace may have any number) needs the property in the name as well
+		// the data graph quoted in a trace may have any number) needs the property in the name as well,
+		// written <id>_<property>[<index>] so that it cannot be the name of a single-valued property
+		// (<id>_<property>) that happens to end in _<index>
 		nodeArrays := 0
 		for _, v := range *node {
 			if arr, isArray := v.([]any); isArray {
@@ -81,7 +83,7 @@ func defineIdRecursively(node *types.ObjectMap, id string) {
 					switch vv := e.(type) {
 					case types.ObjectMap:
 						if nodeArrays > 1 {
-							defineIdRecursively(&vv, fmt.Sprintf("%s_%s_%d", id, k, index))
+							defineIdRecursively(&vv, fmt.Sprintf("%s_%s[%d]", id, k, index))
 						} else {
 							defineIdRecursively(&vv, fmt.Sprintf("%s_%d", id, index))
 						}
